@@ -53,6 +53,7 @@ def viol(label, witness, **kw):
     return d
 
 
+WSAMPLES = int(os.environ.get('SX_SELFTEST_SAMPLES', '3'))
 DUMP_DIR = os.environ.get('SX_DUMP_DIR')          # set by the driver: sampled end-of-path queries for the second solvers
 DUMP_EVERY = int(os.environ.get('SX_DUMP_EVERY', '97'))
 _dump_count = [0]
@@ -219,7 +220,7 @@ class Agg:
             self.flags[f] = self.flags.get(f, 0) + 1
         if 'sample' in out and len(self.samples) < 6:
             self.samples.append({'choices': out.get('choices'), 'instance': out['sample']})
-        if out.get('wsample') is not None and len(self.wsamples) < 3:
+        if out.get('wsample') is not None and len(self.wsamples) < WSAMPLES:
             self.wsamples.append(out['wsample'])
 
     def merge(self, o):
@@ -227,7 +228,7 @@ class Agg:
             self.counts[k] = self.counts.get(k, 0) + v
         self.viols.extend(o.viols[:max(0, 400 - len(self.viols))])
         self.samples.extend(o.samples[:max(0, 6 - len(self.samples))])
-        self.wsamples.extend(o.wsamples[:max(0, 3 - len(self.wsamples))])
+        self.wsamples.extend(o.wsamples[:max(0, WSAMPLES - len(self.wsamples))])
         self.errors.extend(o.errors[:max(0, 5 - len(self.errors))])
         for d, od in ((self.unmodelled, o.unmodelled), (self.flags, o.flags), (self.skips, o.skips), (self.cuts, o.cuts)):
             for k, v in od.items():
@@ -248,7 +249,7 @@ def _explore_local(ob, stack, budget_s, budget_paths):
     n = 0
     while stack:
         prefix = stack.pop()
-        out, pending, ndec = run_path(ob, prefix, want_sample=(n == 0))
+        out, pending, ndec = run_path(ob, prefix, want_sample=(n == 0 or (WSAMPLES > 3 and n % 7 == 0)))
         agg.add(out, ndec)
         stack.extend(pending)
         n += 1
